@@ -183,38 +183,47 @@ CLAIMED = {
              'taken from the observed log and validated as a duplicate-free enumeration of the registered ids.',
         ref='DESIGN.md §7 C03'),
     'C04': dict(
-        technique='Lean 4 proof: inductive invariant over all interleavings of a pc-machine model of the pipeline (one step per '
-                  'sync-facade operation) + trace replay of real executions under a deterministic scheduler on the model and '
-                  'on executable property oracles',
+        technique='Lean 4 proof: inductive invariants over all interleavings of a pc-machine model of the pipeline (one step per '
+                  'sync-facade operation) + slot/payload layer + trace replay of real executions under a deterministic scheduler '
+                  '(random schedules and a bounded-preemption search) on the model and on executable property oracles',
         text='Single-producer pipelines (every ring size, stage/handler topology, batch list, spin and blocking wait, every '
-             'schedule): theorems c04_log_is_prefix (each handler has been handed exactly 1..m, once each, in order, m <= cursor), '
+             'schedule): c04_log_is_prefix (each handler has been handed exactly 1..m, once each, in order, m <= cursor), '
              'c04_handle_only_published, c04_delivered_after_drain, c04_single_partial (after shutdown every written sequence '
-             'except 0 was delivered), and the negation of the full statement for sequence 0 (known finding F5, '
-             'c04_single_first_event_never_delivered). Multi producer: no theorem yet; decided per run by the oracle on the '
-             'implementation events (known finding F8: stranded tail). Tie: every real trace (facade op, handler call, slot access) '
-             'is replayed step by step on the Lean model (MISMATCH) and judged by the delivery oracle (SPECFAIL). Partial: payload '
-             'integrity is judged by the oracle only, not part of the model state.',
-        note='Trusted: Lean kernel; interleaving semantics at facade-operation granularity; the sync facade + deterministic '
-             'scheduler (harness/src/sched.rs) standing in for the OS scheduler on an x86 host; ThreadedExecutor replaced by the '
-             'harness executor (same transmute, managed threads); Gen/Orderings + Gen/BitMap translators; multi-producer cases have '
-             'no model replay yet.',
+             'except 0 was delivered), c04_payload_intact (slot layer: what a stage-k handler is handed for sequence i is the value '
+             'written for i transformed by the mutable handlers of the earlier stages, although slots are reused every n sequences; '
+             'hypothesis: a mutable handler is alone in its stage), and the negation of the full statement for sequence 0 (known '
+             'finding F5, c04_single_first_event_never_delivered). Multi producer, any number of writer threads, every schedule: '
+             'c04_multi_log_is_prefix (in order, gap-free, no repetition, nothing above the cursor), '
+             'c04_multi_handle_only_published / c04_multi_log_written (ring size 2^k: whatever a handler is handed has been '
+             'completely written and published by its claimant); the full delivery statement is false (known findings F8 and '
+             'F13-C04, kernel-checked witness c04_multi_stranded_event_lost, replayed on the real code). Tie: every '
+             'real trace (facade operation, handler call with payload, slot access) is replayed step by step on the Lean model '
+             '(MISMATCH) and judged by the delivery/payload oracle on the implementation events (SPECFAIL).',
+        note='Trusted: Lean kernel; interleaving semantics at facade-operation granularity (plain slot accesses are scheduling points '
+             'too); the sync facade + deterministic scheduler (harness/src/sched.rs) standing in for the OS scheduler on an x86 host; '
+             'ThreadedExecutor replaced by the harness executor (same transmute, managed threads); Gen/Orderings + Gen/BitMap '
+             'translators. Partial: multi-producer delivery is judged per run only.',
         ref='DESIGN.md §7 C04, §5.3'),
     'C13': dict(
-        technique='Lean 4 proof: consequences of the pipeline invariant for every schedule + trace replay under the deterministic scheduler',
-        text='Single-producer pipelines, every configuration and schedule: c13_stage_order (a stage-(k+1) handler about to handle i '
-             'finds i in the log of every stage-k handler, whose published cursor is >= i), c13_chain, c13_no_stage_lapped (gating on '
-             'the last stage only bounds every stage: i < w < i + n). Observation of earlier-stage modifications is judged on the '
-             'implementation events (payload oracle) and is the happens-before statement of C05. Partial: multi producer judged by '
-             'the oracle only.',
-        note='as C04',
+        technique='Lean 4 proof: consequences of the pipeline invariants for every schedule (single and multi producer) + slot layer '
+                  '+ trace replay under the deterministic scheduler',
+        text='Every configuration and schedule, single producer (c13_stage_order) and multi producer (c13_multi_stage_order): a '
+             'stage-(k+1) handler about to handle i finds i in the log of every stage-k handler, whose published cursor is >= i; '
+             'c13_chain; c13_no_stage_lapped (gating on the last stage only bounds every stage: i < w < i + n); '
+             'c13_sees_earlier_modifications (slot layer: a stage-(k+1) handler is handed what stage k was handed with the mutable '
+             'handler of stage k applied). That the accesses are also ordered by happens-before is R2 of C05. The implementation '
+             'events are judged by the stage-order and payload oracles.',
+        note='as C04; no_stage_lapped and the slot layer are proved for the single producer only',
         ref='DESIGN.md §7 C13'),
     'C14': dict(
-        technique='Lean 4 proof: producer invariant (claims tile, cursor = published prefix) for every schedule + trace replay',
-        text='Single-producer sequencer, every configuration and schedule: c14_claims_tile (ranges returned by next() partition '
+        technique='Lean 4 proof: producer invariants (claims tile, cursor = published prefix) for every schedule + trace replay',
+        text='Single-producer sequencer, every configuration and schedule: c14_claims_tile (ranges returned by next partition '
              '[0, next_write) into consecutive ranges of the requested lengths), c14_cursor_monotone, c14_cursor_is_published_prefix, '
-             'c14_cursor_eq_highest_claimed. Multi-producer sequencer: decided per run by the oracle on implementation events; '
-             'known finding F7 (cursor stays below the highest claimed sequence after out-of-order publishes). Partial: no '
-             'multi-producer theorem yet.',
+             'c14_cursor_eq_highest_claimed. Multi-producer sequencer, any number of writer threads, every interleaving of the '
+             'read / capacity-check / CAS / bitmap / cursor steps: c14_multi_claims_tile, c14_multi_cursor_monotone; the clause '
+             'that the cursor equals the highest claimed sequence once all claimants have published is false (known finding F7, '
+             'kernel-checked witness c14_multi_cursor_below_highest_claimed, replayed on the real code); that it never moves past an '
+             'unpublished sequence is judged per run by the oracle on the implementation events.',
         note='as C04',
         ref='DESIGN.md §7 C14'),
     'C11': dict(
@@ -303,7 +312,9 @@ CLAIMED = {
         text='Theorem c19_bitmap_is_residue_set: for every power-of-two capacity 2^k (k unbounded), every set/unset history '
              'and every sequence number, the generated model of BitMap never indexes out of bounds and is_set answers '
              'exactly "last call to that residue class was a set"; corollaries: independence and commutation of distinct '
-             'residues. The model is regenerated from /repo on every run (rs2lean.py bitmap, fail-closed) and additionally '
+             'residues; c19_concurrent_distinct_residues: for every interleaving of two threads whose calls are atomic '
+             'read-modify-writes and address disjoint residue classes, every sequence answers as if its owner had run alone (that '
+             'each real call is exactly one fetch_or / fetch_and, and the final answers, are checked under the deterministic scheduler). The model is regenerated from /repo on every run (rs2lean.py bitmap, fail-closed) and additionally '
              'executed against the real BitMap on generated and exhaustive small-scope histories.',
         note='Trusted: Lean kernel (propext, Classical.choice, Quot.sound), rs2lean.py bitmap translator (~150 lines), '
              'size_of::<AtomicU64>()=8, sequential semantics of fetch_or/fetch_and/load (atomic RMW per word; concurrency on '
